@@ -12,7 +12,7 @@ ENTRY = dict(
                 "replay: generated block-structured programs run on the real engine, paced by whole-process quiescence, every "
                 "segment of requests / completions / error traces and the final variables compared with the model at the "
                 "extracted configuration, and with the token game (the property)."),
-    level_note=("BLOCK LEVEL, chains (Props/C01Chain): for every chain start -> a1 -> ... -> an -> end of any length (ids pairwise distinct), every code configuration, data and answers: StartAll requests a1, each answer is followed by exactly one request — of the next activity in insertion order — and the last by the end event (chain_conformance, by induction along the chain), hence identical to the token game step by step (chain_matches_token_game). Other block kinds have no block-level theorem. Refinement proved (Props/C01Conformance): for every code configuration, program, data and answer sequence, a "
+    level_note=("UNCONDITIONAL on the fragment without inclusive gateways (Props/C01Fragment, C01FragmentCurrent): for EVERY program whose nodes are start / end events, activities with any conditional outgoing flows, exclusive and parallel gateways, catch / throw events and embedded sub-processes (any nesting, re-entered in loops) — any graph, structured or not, any size — every data and every sequence of answers (ok / error with any handler mode), the run of the engine model at the configuration extracted from today's /repo never logs a deviation and IS, state by state, the run of the BPMN token game Cfg.ideal (noIncl_conformance, current_noIncl_conformance; for programs also without sub-processes it holds whatever the two sub-process switches are: fragment_conformance). So the inclusive gateway is the only node kind on which today's engine model can leave the token game (noIncl_hypothesis_needed: it does). BLOCK LEVEL, chains (Props/C01Chain): for every chain start -> a1 -> ... -> an -> end of any length (ids pairwise distinct), every code configuration, data and answers: StartAll requests a1, each answer is followed by exactly one request — of the next activity in insertion order — and the last by the end event (chain_conformance, by induction along the chain), hence identical to the token game step by step (chain_matches_token_game). Other block kinds have no block-level theorem. Refinement proved (Props/C01Conformance): for every code configuration, program, data and answer sequence, a "
                 "run that logs no deviation cause IS a run of the token game under an admissible inclusive-join policy "
                 "(every join decision inside the interval the property allows), and equals the run of Cfg.ideal when the "
                 "cohort switch is off; the naive statement 'equals Cfg.ideal' is refuted by a kernel-checked witness. The "
@@ -21,7 +21,7 @@ ENTRY = dict(
                 "atomically and tokens run to quiescence between driver actions; two scheduling variants of the code "
                 "configuration are accepted. Goroutine schedules are sampled by the runs, not quantified by a theorem."),
     technique="Lean 4 proof (kernel theorems on the engine model) + lock-step model/implementation replay",
-    lean_modules=["Bpmn.Props.C01", "Bpmn.Props.C01Conformance", "Bpmn.Props.EngineCurrent", "Bpmn.Props.C01Chain"],
+    lean_modules=["Bpmn.Props.C01", "Bpmn.Props.C01Conformance", "Bpmn.Props.EngineCurrent", "Bpmn.Props.C01Chain", "Bpmn.Props.C01Fragment", "Bpmn.Props.C01FragmentCurrent"],
     families=["c01", "c01d"],
     facts_from=["Engine"],
     rule=("c01d: 48 DIRECTED programs for the data a condition sees — [exclusive split on a variable]? -> parallel / inclusive "
